@@ -118,7 +118,8 @@ def edit(rng, svcs, rules):
 
 
 DIRECTED = ["crit-add-then-change", "rule-add-then-change", "svc-add-then-change", "svc-remove-then-add", "svc-remove-all-then-add", "svc-change-and-back", "svc-readd-same", "rule-rename-and-back", "rule-remove-then-add",
-            "crit-remove-then-add", "svc-swap-names", "svc-recase-xreply", "rule-recase-and-back", "same-size-edit", "same-address-across-reload"]
+            "crit-remove-then-add", "svc-swap-names", "svc-recase-xreply", "rule-recase-and-back", "same-size-edit", "same-address-across-reload", "value-recase-after-noop", "section-drop-then-restore",
+            "xquery-section-drop-then-restore"]
 
 SAME_SIZE = {"class": [("aaaa", "bbbb"), ("users", "opers")], "address": [("10.1.2.0/24", "10.1.3.0/24"), ("10.1.*", "10.2.*"), ("2001:db8::/32", "2001:db9::/32")],
              "account": [("alice", "bobby"), ("al*", "bo*")], "hostname": [("*.net", "*.org"), ("host?.net", "host?.org")], "username": [("joe", "jae"), ("~*", "j*")]}
@@ -158,6 +159,26 @@ def directed_chain(rng, kind, svcs, rules):
         a2 = recase(rng, a)
         a3 = recase(rng, a2)
         return [([(a, pl), (b, pb)], rr, []), ([(a2, pl), (b, pb)], rr, [kind]), ([(a3, pl), (b, pb)], rr, [kind])]
+    if kind == "value-recase-after-noop":
+        # an unchanged reload first (every node has then been compared once), then an edit that only changes the letter case of a
+        # value: class names and glob patterns are case-sensitive data
+        base = copy.deepcopy(r0)
+        base[0]["class"] = "Users"
+        key = rng.choice(["class", "account", "hostname", "username"])
+        vals = {"class": ("Users", "users"), "account": ("Ali*", "ali*"), "hostname": ("*.Example.org", "*.example.org"), "username": ("Joe", "joe")}[key]
+        base[0][key] = vals[0]
+        r1 = copy.deepcopy(base)
+        r1[0][key] = vals[1]
+        sv_ = [(a, pa), (b, pb)]
+        return [(sv_, base, []), (sv_, copy.deepcopy(base), [kind]), (sv_, r1, [kind])]
+    if kind in ("section-drop-then-restore", "xquery-section-drop-then-restore"):
+        # the whole section disappears from the file and comes back (with other content) by a later reload
+        sv_ = [(a, pa), (b, pb)]
+        r2 = copy.deepcopy(r0)
+        r2[0]["class"] = "restored"
+        if kind == "section-drop-then-restore":
+            return [(sv_, r0, []), (sv_, [], [kind]), (sv_, r2, [kind])]
+        return [(sv_, r0, []), (None, r0, [kind]), ([(a, pb), (c, pc)], r0, [kind])]
     if kind in ("same-size-edit", "same-address-across-reload"):
         # edits that leave the file's length unchanged (the file is overwritten in place by every second reload, within the same
         # second): one setting of the first rule flips between two values of equal length, and a service swaps protocol names of equal length
@@ -286,7 +307,9 @@ def _worker(a):
         for _ in range(a["nreloads"]):
             ns, nr, kinds = edit(rng, chain[-1][0], chain[-1][1])
             chain.append((ns, nr, kinds))
-    cfgs = [proto.Config(sv, timeout=3600, rules=ru, use_class=True) for sv, ru, k in chain]
+    cfgs = [proto.Config(sv or [], timeout=3600, rules=ru, use_class=True) for sv, ru, k in chain]
+    for c_, (sv, ru, k) in zip(cfgs, chain):
+        c_.omit_xquery = sv is None
     probe_seed = rng.randrange(1 << 30)
     nprobes = a["nprobes"]
     res = {"viol": [], "stats": {"config_pairs": 1, "reloads": 0, "probe_steps_compared": 0, "edits": {}, "probes": 0, "same_address_straddles_reload": 0}, "inconc": [],
